@@ -9,6 +9,7 @@ import DnsProofs.C05Txt
 import DnsProofs.C03Valid
 import DnsProofs.C01Opt
 import DnsProofs.C05Hex
+import DnsProofs.C05Ip
 namespace Dns.C05X
 open Dns Dns.Lex Dns.TxtParse Dns.TextCodec Dns.C07 Dns.C06T Dns.C05L Dns.C05T Dns.C03 Dns.C05H
 
@@ -222,6 +223,7 @@ def kindEq : TStep → TStep → Bool
   | .hexGroups 12 2 45 false, .euiTok 6 => true
   | .hexGroups 16 2 45 false, .euiTok 8 => true
   | .hexGroups 16 4 58 _, .nodeId => true
+  | .ipv4, .ipv4 => true
   | _, _ => false
 
 /-- the print plan `P` (from `String()`) and the parse plan `Q` (from `parse`) describe the same RDATA text: single-token
@@ -251,6 +253,7 @@ def FieldWF : TStep → TVal → Prop
   | .tokStr, .s t => RestWF' t
   | .euiTok g, .n v => v < 2 ^ (8 * g)
   | .nodeId, .n v => v < 2 ^ 64
+  | .ipv4, .s a => a.length = 4
   | _, _ => False
 
 /-- the rest-of-entry string: one non-empty word of plain octets (hex, base64 and the like) -/
@@ -338,6 +341,17 @@ theorem field_word (p q : TStep) (v : TVal) (hk : kindEq p q = true) (hw : Field
       ⟨nodeId_ne_nil up n, plain_wordOK _ (printHex_plain 16 4 58 up n (by decide)) (nodeId_ne_nil up n)⟩, ?_⟩
     intro t ts Q acc ht he _hval
     simp only [parsePlan, headTok, ht, he, Bool.false_eq_true, ↓reduceIte, nodeId_roundtrip up n hw, List.tail_cons]
+  case ipv4.ipv4 =>
+    cases v <;> simp only [FieldWF] at hw
+    rename_i a
+    obtain ⟨x0, x1, x2, x3, rfl⟩ : ∃ x0 x1 x2 x3, a = [x0, x1, x2, x3] := by
+      match a, hw with
+      | [x0, x1, x2, x3], _ => exact ⟨x0, x1, x2, x3, rfl⟩
+    refine ⟨printIPv4 [x0, x1, x2, x3], fun vs => by simp [printStep],
+      ⟨C05I.printIPv4_ne_nil x0 x1 x2 x3, plain_wordOK _ (C05I.printIPv4_plain x0 x1 x2 x3) (C05I.printIPv4_ne_nil x0 x1 x2 x3)⟩, ?_⟩
+    intro t ts Q acc ht he _hval
+    simp only [parsePlan, headTok, ht, he, Bool.false_eq_true, C05I.printIPv4_no_colon, false_or, ↓reduceIte,
+      C05I.ipv4_roundtrip, List.tail_cons]
   case name.name =>
     cases v <;> simp only [FieldWF] at hw
     obtain ⟨ls, hok, rfl⟩ := hw
